@@ -488,4 +488,98 @@ def c05(tier, seed):
     )
 
 
-PROPS = {"C05": c05, "C08": c08, "C07": c07, "C09": c09, "C15": c15, "C16": c16, "C17": c17, "C14": c14, "C12": c12, "C01": c01, "C02": c02, "C03": c03, "C04": c04, "C11": c11}
+def c20(tier, seed):
+    import configs
+    from scenarios import cat, mr, scenario
+    y = dict(yvals=(0, 1, 3), ymeasures=("mean",), valid_counts=True)
+    wins = [None, "omit", -1, 0, 1, 2, 3, 4, 5, 6]
+
+    def with_windows(s, nper, rows_dim, on_rows=False):
+        cfgs = [configs.config()]
+        valid = [x for p, x in enumerate(rows_dim["ids"], 1) if p not in rows_dim["miss"]]
+        for w in wins:
+            if isinstance(w, int) and w > nper + 1:
+                continue
+            sm = {"win": None, "omit": True} if w == "omit" else {"win": w}
+            if on_rows:
+                cfgs.append(configs.config(configs.dimcfg(smoother=sm), configs.dimcfg()))
+            else:
+                cfgs.append(configs.config(configs.dimcfg(), configs.dimcfg(smoother=sm)))
+                if rows_dim["kind"] == "cat" and len(valid) >= 2 and w in (2, 3, None):
+                    ins = [configs.insertion("S", "bottom", valid[:2], id=41),
+                           configs.insertion("D", "top", valid[:1], valid[1:2], id=42)]
+                    cfgs.append(configs.config(configs.dimcfg(vins=ins), configs.dimcfg(smoother=sm)))
+        s = dict(s)
+        s["configs"] = cfgs
+        return s
+
+    scns = []
+    for nper in ((1, 2, 3, 4) if tier == "quick" else (1, 2, 3, 4, 5)):
+        rows = cat("A", 3, miss=[2], vals=[1, 5, 3])
+        scns.append(with_windows(scenario("cat_x_catdate%d" % nper, [rows, cat("B", nper, date=True)]), nper, rows))
+    rows = cat("A", 2, vals=[2, None])
+    scns.append(with_windows(scenario("cat_x_catdate3m", [rows, cat("B", 4, miss=[2], date=True)]), 3, rows))
+    rows = mr("A", 2)
+    scns.append(with_windows(scenario("mr_x_catdate3", [rows, cat("B", 3, date=True)]), 3, rows))
+    rows = cat("A", 2)
+    scns.append(with_windows(scenario("cat_x_cat3.nodate", [rows, cat("B", 3)]), 3, rows))
+    scns.append(with_windows(scenario("cat_x_catdate3_y", [rows, cat("B", 3, date=True)], **y), 3, rows))
+    rows = cat("A", 4, miss=[3], date=True)
+    scns.append(with_windows(scenario("catdate_1d_y", [rows], **y), 3, rows, on_rows=True))
+    rows = cat("A", 3)
+    scns.append(with_windows(scenario("cat_1d_y.nodate", [rows], **y), 3, rows, on_rows=True))
+    return dict(
+        jobs=_value_jobs("C20", "c20", scns, tier, seed, single_pass=True),
+        rule="series lengths 1-4 (5 thorough) x windows {absent, null, omitted, -1, 0, 1, ..., "
+             "periods+1} x TLC-enumerated bags (zero bases give NaN periods), date and non-date "
+             "dimensions, 1-D and 2-D, with row subtotals and differences, every smoothed measure",
+        assumptions=ASSUME_COMMON,
+        feature_floor=("weights_differ",),
+    )
+
+
+def c10(tier, seed):
+    import configs
+    import envelope
+    from scenarios import cat, mr, caitems, cacat, scenario
+    n = 8 if tier == "quick" else 60
+    y = dict(yvals=(0, 1, 3), ymeasures=("mean", "sum", "stddev", "median"), valid_counts=True)
+    base = [
+        scenario("cat_x_cat", [cat("A", 4, miss=[2], vals=[1, 9, 3, 2]), cat("B", 3, miss=[3], vals=[2, 1, 5])],
+                 population=100),
+        scenario("cat_x_mr", [cat("A", 4, miss=[3], vals=[3, 1, 7, 2]), mr("B", 2)], population=50),
+        scenario("mr_x_mr", [mr("A", 2), mr("B", 3)]),
+        scenario("catdate_x_cat", [cat("A", 3, date=True), cat("B", 3)], population=10),
+        scenario("catdate_x_mr", [cat("A", 2, date=True), mr("B", 2)]),
+        scenario("casub_x_cacat", [caitems("A", 2), cacat("A", 3, vals=[1, 2, 3])]),
+        scenario("cat_x_cat_y", [cat("A", 3), cat("B", 3, miss=[2])], **y),
+        scenario("cat_x_mr_y", [cat("A", 2), mr("B", 2)], **y),
+        scenario("cat_x_cat.u", [cat("A", 3), cat("B", 2)], weighted=False),
+    ]
+    scns = []
+    for i, s in enumerate(base):
+        s = dict(s)
+        rd, cd = s["dims"]
+        s["configs"] = ([configs.DEFAULT] + configs.insertion_configs(rd, cd, n, seed * 71 + i)
+                        + configs.order_configs(rd, cd, n // 2, seed * 73 + i, with_prune=True))
+        scns.append(s)
+    jobs = _value_jobs("C10", "c07", scns, tier, seed,
+                       bfs_budget=220 if tier == "quick" else 12000,
+                       sim_budget=200 if tier == "quick" else 8000)
+    for j in jobs:
+        j["replayer"] = ("mirror", "replay")
+    return dict(
+        jobs=jobs,
+        rule="every 2-D pairing A x B (CAT, CAT_DATE, MR, CA) with insertions, differences and "
+             "display transforms x TLC-enumerated bags; the transposed response is built by "
+             "exchanging the dimension dicts and permuting the axes of every payload tensor; "
+             "both are evaluated by the library and TLC validates the recorded pair against "
+             "the mirror table of TraceRelation.tla",
+        assumptions=ASSUME_COMMON + ["value identity is token identity of the float repr "
+                                     "(observed to hold between the row- and column-direction "
+                                     "code paths on integer-weighted data)"],
+        feature_floor=("data", "insertions"),
+    )
+
+
+PROPS = {"C10": c10, "C20": c20, "C05": c05, "C08": c08, "C07": c07, "C09": c09, "C15": c15, "C16": c16, "C17": c17, "C14": c14, "C12": c12, "C01": c01, "C02": c02, "C03": c03, "C04": c04, "C11": c11}
